@@ -48,7 +48,7 @@ func (dw *DeltaSelector) ObjectsToPack(
 	hashes []plumbing.Hash,
 	packWindow uint,
 ) ([]*ObjectToPack, error) {
-	otp, err := dw.objectsToPack(hashes, packWindow)
+	otp, err := dw.objectsToPack(uniqueHashes(hashes), packWindow)
 	if err != nil {
 		return nil, err
 	}
@@ -90,6 +90,32 @@ func (dw *DeltaSelector) ObjectsToPack(
 	}
 
 	return otp, nil
+}
+
+// uniqueHashes returns hashes without repetitions, keeping the order of
+// first occurrence. A pack must not contain the same object twice: git
+// index-pack --strict refuses it ("The same object ... appears twice in the
+// pack") and a repeated REF_DELTA base is refused even without --strict, so
+// a hash requested more than once is packed once.
+func uniqueHashes(hashes []plumbing.Hash) []plumbing.Hash {
+	seen := make(map[plumbing.Hash]struct{}, len(hashes))
+	var out []plumbing.Hash
+	for i, h := range hashes {
+		if _, ok := seen[h]; ok {
+			if out == nil {
+				out = append(make([]plumbing.Hash, 0, len(hashes)), hashes[:i]...)
+			}
+			continue
+		}
+		seen[h] = struct{}{}
+		if out != nil {
+			out = append(out, h)
+		}
+	}
+	if out == nil {
+		return hashes
+	}
+	return out
 }
 
 func (dw *DeltaSelector) objectsToPack(
